@@ -518,4 +518,232 @@ example : ∃ ts, allThreads (kmuRow 4 [0, 2, 5] [0, 1 / 2, 1] (halfShape 4)) 4 
   congr 1
   decide +kernel
 
+/-! ### every order the code supports -/
+
+/-- **Pn_even_orders.**  For every even order `n ≤ 10` and every `x`, the coded `P_n(x, n)` returns the
+value at `x = mu²` of the Legendre polynomial `P_n(mu)` (Bonnet's recursion; only even powers occur). -/
+theorem Pn_even_orders : ∀ n ∈ [0, 2, 4, 6, 8, 10], ∀ x : Rat, Pn x n = .ok (peval (evens (legendre n)) x) := by
+  intro n hn x
+  simp only [List.mem_cons, List.not_mem_nil, or_false] at hn
+  rcases hn with rfl | rfl | rfl | rfl | rfl | rfl
+  · exact Pn_closed_0 x
+  · exact Pn_closed_2 x
+  · exact Pn_closed_4 x
+  · exact Pn_closed_6 x
+  · exact Pn_closed_8 x
+  · exact Pn_closed_10 x
+
+example : Pn (1 / 3) 6 = .ok (peval (evens (legendre 6)) (1 / 3)) ∧ peval (evens (legendre 6)) (1 / 3) = 2 / 9 :=
+  ⟨Pn_even_orders 6 (by simp) _, by decide +kernel⟩
+
+/-- **PnMu_all_orders.**  Odd orders included: given a rational `mu` with `mu * mu = x`, the coded
+`P_n(x, n)` — whose `x ** (0.5 * (n - 2k))` is `mu ^ (n - 2k)` — returns the Legendre polynomial
+`P_n(mu)` for every order `n ≤ 10`; for odd `n` that is `mu ·` (a polynomial in `mu²`) at the
+non-negative root `mu = sqrt(mu²)`. -/
+theorem PnMu_all_orders : ∀ n ∈ List.range 11, ∀ mu : Rat, PnMu mu n = .ok (peval (legendre n) mu) := by
+  intro n hn mu
+  rw [List.mem_range] at hn
+  obtain rfl | rfl | rfl | rfl | rfl | rfl | rfl | rfl | rfl | rfl | rfl :
+      n = 0 ∨ n = 1 ∨ n = 2 ∨ n = 3 ∨ n = 4 ∨ n = 5 ∨ n = 6 ∨ n = 7 ∨ n = 8 ∨ n = 9 ∨ n = 10 := by omega
+  · exact PnMu_closed_0 mu
+  · exact PnMu_closed_1 mu
+  · exact PnMu_closed_2 mu
+  · exact PnMu_closed_3 mu
+  · exact PnMu_closed_4 mu
+  · exact PnMu_closed_5 mu
+  · exact PnMu_closed_6 mu
+  · exact PnMu_closed_7 mu
+  · exact PnMu_closed_8 mu
+  · exact PnMu_closed_9 mu
+  · exact PnMu_closed_10 mu
+
+example : PnMu (1 / 2) 3 = .ok (-7 / 16) := by
+  rw [PnMu_all_orders 3 (by decide) (1 / 2)]; congr 1; decide +kernel
+
+/-- for even orders the `mu`-parametrised form is the coded `P_n` at `x = mu²` -/
+theorem PnMu_even (mu : Rat) (n : Nat) (hn : n % 2 = 0) (cs : List Int) (hcs : pnCoeffs n = .ok cs) :
+    PnMu mu n = Pn (mu * mu) n := by
+  rw [PnMu_eq_eval mu n cs hcs, Pn_eq_eval (mu * mu) n hn cs hcs,
+    evalTerms_sq mu n hn _ cs (fun k hk => by have := List.mem_range.mp hk; omega)]
+
+/-- **Pn_rejects_above_ten.**  Every order above 10 needs `factorial(2n)` with `2n > 20` already in its
+first term: the coded `P_n` raises `ValueError` (so does `bin_kmu` when such a pole is requested). -/
+theorem Pn_rejects_above_ten (x : Rat) (n : Nat) (hn : 11 ≤ n) (he : n % 2 = 0) : Pn x n = .error .rejected := by
+  unfold Pn
+  rw [if_neg (by omega), List.range_succ_eq_map, PnLoop, pnFactor_zero_rejected n hn]
+
+example : Pn (1 / 2) 14 = .error .rejected := Pn_rejects_above_ten _ 14 (by omega) (by omega)
+
+/-- **kmu_pole_means_supported.**  `kmu_pole_means` with its hypothesis discharged: for every even order
+`pole ≤ 10` — all the even orders for which the coded `P_n` does not raise — the accumulated
+`weighted_counts_poles` row of `k` bin `b` is the sum of `(2l+1) · P_l(mu) · Ff` (Legendre polynomial of
+Bonnet's recursion) over exactly the full-mesh modes whose `|k|²` classifies to `b`. -/
+theorem kmu_pole_means_supported (n T : Nat) (hn : 1 ≤ n) (assign : Nat → Nat) (ek em : List Rat)
+    (hek : ek ≠ []) (hem : em.tail ≠ []) (h1 : 1 ≤ em.tail.getLast hem) (hT : ∀ i < n, assign i < T)
+    (Ff : Nat → Nat → Nat → Rat) (hsym : ConjSymm n Ff) (pole : Nat) (hp : pole ∈ [0, 2, 4, 6, 8, 10]) :
+    ∃ ts, allThreads (kmuRow n ek em (halfShape n)) n T assign = .ok ts ∧ ∀ b,
+      poleSumT Ff pole b ts = .ok (ratSum ((List.range (em.length - 1)).map (fun m =>
+        fullSumRat n (fun i j l =>
+          if clsKmu ek em (fold n i) (fold n j) (fold n l) = some (b, m) then
+            poleWeighted n pole (peval (evens (legendre pole))) Ff i j l
+          else 0)))) :=
+  kmu_pole_means n T hn assign ek em hek hem h1 hT Ff hsym pole _ (Pn_even_orders pole hp)
+
+example : ∃ ts, allThreads (kmuRow 4 [0, 2, 5] [0, 1 / 2, 1] (halfShape 4)) 4 2 (fun i => i % 2) = .ok ts ∧
+    ∃ v, poleSumT (fun _ _ l => ((sq (fold 4 l) : Nat) : Rat)) 8 1 ts = .ok v := by
+  have hs : ConjSymm 4 (fun _ _ l => ((sq (fold 4 l) : Nat) : Rat)) := by
+    intro i j l _ _ hl
+    simp only [sq, natAbs_fold_negIdx 4 l hl]
+  obtain ⟨ts, hts, h⟩ := kmu_pole_means_supported 4 2 (by omega) (fun i => i % 2) [0, 2, 5] [0, 1 / 2, 1]
+    (by simp) (by simp) (by decide +kernel) (fun i _ => Nat.mod_lt i (by omega)) _ hs 8 (by simp)
+  exact ⟨ts, hts, _, h 1⟩
+
+/-! ### configuration space (`fourier=False`): a full `(n, n, n)` real-space mesh -/
+
+/-- **shape_irrelevant.**  On any mesh that contains the planes `k < n // 2 + 1` — in particular the full
+real-space mesh `(n, n, n)` that `pk_to_xi` passes with `fourier=False` (`dk = L / n1d` only rescales the
+edges, which the model receives already squared) — `bin_kmu` and `bin_kppi` touch the same cells, fault on
+none, and return exactly what they return on the half mesh. -/
+theorem shape_irrelevant (n T : Nat) (assign : Nat → Nat) (ek em : List Rat) (sh : Shape) (hsh : ShapeOk n sh)
+    (hek : ek ≠ []) (hT : ∀ i < n, assign i < T) :
+    (∀ (hem : em.tail ≠ []), 1 ≤ em.tail.getLast hem →
+      allThreads (kmuRow n ek em sh) n T assign = allThreads (kmuRow n ek em (halfShape n)) n T assign ∧
+      ∀ poles F, binKmu n sh T assign ek em poles F = binKmu n (halfShape n) T assign ek em poles F) ∧
+    (em.tail ≠ [] →
+      allThreads (kppiRow n ek em sh) n T assign = allThreads (kppiRow n ek em (halfShape n)) n T assign ∧
+      ∀ F, binKppi n sh T assign ek em F = binKppi n (halfShape n) T assign ek em F) := by
+  obtain ⟨a, t, rfl⟩ := List.exists_cons_of_ne_nil hek
+  constructor
+  · intro hem h1
+    obtain ⟨a', t', rfl⟩ : ∃ a' t', em = a' :: t' := by
+      cases em with
+      | nil => simp at hem
+      | cons a' t' => exact ⟨a', t', rfl⟩
+    have hmu := mu_ok t' hem h1
+    have h : allThreads (kmuRow n (a :: t) (a' :: t') sh) n T assign =
+        allThreads (kmuRow n (a :: t) (a' :: t') (halfShape n)) n T assign := by
+      rw [allThreads_spec _ (rowSpec n (a :: t) (a' :: t')) n T assign
+          (fun i hi => kmuRow_spec_sh n a t a' t' hmu sh hsh i hi) hT,
+        allThreads_spec _ (rowSpec n (a :: t) (a' :: t')) n T assign
+          (fun i hi => kmuRow_spec_sh n a t a' t' hmu _ (shapeOk_half n) i hi) hT]
+    refine ⟨h, ?_⟩
+    intro poles F
+    unfold binKmu
+    rw [h]
+  · intro hem
+    obtain ⟨a', t', rfl⟩ : ∃ a' t', em = a' :: t' := by
+      cases em with
+      | nil => simp at hem
+      | cons a' t' => exact ⟨a', t', rfl⟩
+    have h : allThreads (kppiRow n (a :: t) (a' :: t') sh) n T assign =
+        allThreads (kppiRow n (a :: t) (a' :: t') (halfShape n)) n T assign := by
+      rw [allThreads_spec _ (rowSpecPi n (a :: t) (a' :: t')) n T assign
+          (fun i hi => kppiRow_spec_sh n a t a' t' hem sh hsh i hi) hT,
+        allThreads_spec _ (rowSpecPi n (a :: t) (a' :: t')) n T assign
+          (fun i hi => kppiRow_spec_sh n a t a' t' hem _ (shapeOk_half n) i hi) hT]
+    refine ⟨h, ?_⟩
+    intro F
+    unfold binKppi
+    rw [h]
+
+/-- **kmu_means_config_space.**  `fourier=False`: the mesh is a real-space field `Xi` on the full
+`(n, n, n)` mesh with `Xi(-r) = Xi(r)` (it is the inverse transform of a real power spectrum).  The loop
+reads only the planes `rz ≤ n/2`, doubles the non-self-conjugate ones, and its counts and means are the
+full-mesh mode count and the mean of `Xi` itself over exactly the full-mesh cells whose `|r|²` and `mu²`
+classify to `(b, m)`. -/
+theorem kmu_means_config_space (n T : Nat) (hn : 1 ≤ n) (assign : Nat → Nat) (ek em : List Rat)
+    (hek : ek ≠ []) (hem : em.tail ≠ []) (h1 : 1 ≤ em.tail.getLast hem) (hT : ∀ i < n, assign i < T)
+    (Xi : Nat → Nat → Nat → Rat) (hsym : ConjSymm n Xi) :
+    ∃ ts, allThreads (kmuRow n ek em (fullShape n)) n T assign = .ok ts ∧ ∀ b m,
+      cntT ts b m = fullCount n (clsKmu ek em) b m ∧
+      divIf (wsumT Xi ts b m) (cntT ts b m) =
+        divIf (fullSumRat n (fun i j l =>
+          if clsKmu ek em (fold n i) (fold n j) (fold n l) = some (b, m) then Xi i j l else 0))
+          (fullCount n (clsKmu ek em) b m) := by
+  obtain ⟨ts, hts, h⟩ := kmu_means n T hn assign ek em hek hem h1 hT Xi hsym
+  refine ⟨ts, ?_, fun b m => ⟨(h b m).1, (h b m).2.2.1⟩⟩
+  rw [((shape_irrelevant n T assign ek em (fullShape n) (shapeOk_full n hn) hek hT).1 hem h1).1, hts]
+
+example : (binKmu 3 (fullShape 3) 2 (fun i => i % 2) [0, 1, 4] [0, 1 / 2, 1] [] (fun _ _ _ => 1)).toOption.map
+      (·.counts) = some [[5, 2], [20, 0]] := by
+  decide +kernel
+
+/-! ### `get_k_mu_edges` produces binnings that satisfy the preconditions -/
+
+/-- **get_k_mu_edges_wellformed.**  For integer `kbins ≥ 1`, `mubins ≥ 1`, `k_max > 0` (exact-rational
+`np.linspace`): the linear `k` edges run strictly increasing from 0 to `k_max` in `kbins + 1` points, the mu
+edges strictly increasing from 0 to 1 in `mubins + 1` points, and the squared dimensionless edges the
+kernels compute from them are strictly increasing too, so the bins are the intervals `(e_b, e_{b+1}]`. -/
+theorem get_k_mu_edges_wellformed (kmax dk : Rat) (hk : 0 < kmax) (hdk : 0 < dk) (kbins mubins : Nat)
+    (hkb : 1 ≤ kbins) (hmb : 1 ≤ mubins) :
+    (kEdgesLinear kmax kbins).length = kbins + 1 ∧ (kEdgesLinear kmax kbins).head? = some 0 ∧
+    (kEdgesLinear kmax kbins).getLast? = some kmax ∧ (kEdgesLinear kmax kbins).Pairwise (· < ·) ∧
+    (muEdgesLinear mubins).length = mubins + 1 ∧ (muEdgesLinear mubins).head? = some 0 ∧
+    (muEdgesLinear mubins).getLast? = some 1 ∧ (muEdgesLinear mubins).Pairwise (· < ·) ∧
+    (sqEdges dk (kEdgesLinear kmax kbins)).Pairwise (· < ·) ∧
+    (sqEdges 1 (muEdgesLinear mubins)).Pairwise (· < ·) ∧
+    (sqEdges 1 (muEdgesLinear mubins)).getLast? = some 1 := by
+  unfold kEdgesLinear muEdgesLinear
+  refine ⟨linspace_length _ _ _, linspace_head _ _ _ (by omega), linspace_getLast _ _ _ (by omega),
+    linspace_pairwise _ _ hk _, linspace_length _ _ _, linspace_head _ _ _ (by omega),
+    linspace_getLast _ _ _ (by omega), linspace_pairwise _ _ (by norm_num) _,
+    sqEdges_pairwise dk hdk _ (linspace_ge 0 kmax (le_of_lt hk) _) (linspace_pairwise _ _ hk _),
+    sqEdges_pairwise 1 (by norm_num) _ (linspace_ge 0 1 (by norm_num) _) (linspace_pairwise _ _ (by norm_num) _), ?_⟩
+  unfold sqEdges
+  rw [List.getLast?_map, linspace_getLast _ _ _ (by omega)]
+  norm_num
+
+example : kEdgesLinear 3 4 = [0, 3 / 4, 3 / 2, 9 / 4, 3] ∧ muEdgesLinear 2 = [0, 1 / 2, 1] ∧
+    sqEdges (1 / 2) (kEdgesLinear 3 2) = [0, 9, 36] := by decide +kernel
+
+/-- **calc_power_binnings_inbounds.**  With the binnings `get_k_mu_edges` builds from integers — `k` edges:
+ANY list of `kbins + 1` values (linear or the `geomspace` of `logk=True`; only non-emptiness is needed),
+mu edges: `linspace(0, 1, mubins + 1)` with `mubins ≥ 1`, squared as the kernel squares them — `bin_kmu`
+never leaves an array and its counts are the full-mesh counts, on the half-complex and on the full mesh. -/
+theorem calc_power_binnings_inbounds (n T : Nat) (hn : 1 ≤ n) (assign : Nat → Nat) (hT : ∀ i < n, assign i < T)
+    (ek : List Rat) (kbins : Nat) (hlen : ek.length = kbins + 1) (mubins : Nat) (hmb : 1 ≤ mubins)
+    (F : Nat → Nat → Nat → Rat) (sh : Shape) (hsh : ShapeOk n sh) :
+    ∃ o, binKmu n sh T assign ek (sqEdges 1 (muEdgesLinear mubins)) [] F = .ok o ∧
+      o.counts = (List.range kbins).map (fun b => (List.range mubins).map (fun m =>
+        fullCount n (clsKmu ek (sqEdges 1 (muEdgesLinear mubins))) b m)) := by
+  have hek : ek ≠ [] := by intro h; rw [h] at hlen; simp at hlen
+  have hl : (sqEdges 1 (muEdgesLinear mubins)).length = mubins + 1 := by
+    unfold sqEdges muEdgesLinear; rw [List.length_map, linspace_length]
+  have hem : (sqEdges 1 (muEdgesLinear mubins)).tail ≠ [] := by
+    intro h
+    have := congrArg List.length h
+    rw [List.length_tail, hl] at this
+    simp at this; omega
+  have hlast : (sqEdges 1 (muEdgesLinear mubins)).getLast? = some 1 :=
+    (get_k_mu_edges_wellformed 1 1 (by norm_num) (by norm_num) 1 mubins (le_refl _) hmb).2.2.2.2.2.2.2.2.2.2
+  have h1 : 1 ≤ (sqEdges 1 (muEdgesLinear mubins)).tail.getLast hem := by
+    have h2 : (sqEdges 1 (muEdgesLinear mubins)).tail.getLast? = some 1 := by
+      rw [List.getLast?_tail]
+      simp [hlast, hl]
+      omega
+    rw [List.getLast?_eq_some_getLast hem] at h2
+    exact le_of_eq (Option.some.inj h2).symm
+  obtain ⟨⟨o, ho⟩, hall⟩ := kmu_counts_exact n T hn assign ek _ hek hem h1 hT F
+  rw [((shape_irrelevant n T assign ek _ sh hsh hek hT).1 hem h1).2]
+  refine ⟨o, ho, ?_⟩
+  rw [(hall [] o ho).1, hlen, hl]
+  rfl
+
+example : (binKmu 4 (halfShape 4) 1 (fun _ => 0) (sqEdges 1 (kEdgesLinear 2 2)) (sqEdges 1 (muEdgesLinear 2)) []
+    (fun _ _ _ => 1)).toOption.map (·.counts) = some [[5, 2], [4, 16]] := by decide +kernel
+
+/-! ### the sibling loops still fold with `i < n1d // 2` (observation, outside the property) -/
+
+/-- **sibling_fold_differs_only_odd_middle.**  The fold coded in `expand_poles_to_3d`, `get_smoothing`,
+`get_delta_mu2` agrees with `numpy.fft.fftfreq` (and with `bin_kmu`) on every index of every even mesh and on
+every index of an odd mesh except the middle one `i = (n-1)/2`, which it sends to `-(n+1)/2` instead of
+`(n-1)/2` (so `|k|²` is computed with `((n+1)/2)²` instead of `((n-1)/2)²` on that row / column). -/
+theorem sibling_fold_differs_only_odd_middle (n i : Nat) :
+    (¬ (n % 2 = 1 ∧ i = n / 2) → foldOld n i = fold n i) ∧
+    (n % 2 = 1 → fold n (n / 2) = ((n / 2 : Nat) : Int) ∧ foldOld n (n / 2) = -((n / 2 : Nat) : Int) - 1) :=
+  ⟨foldOld_eq_fold n i, foldOld_odd_middle n⟩
+
+example : (List.range 5).map (foldOld 5) = [0, 1, -3, -2, -1] ∧ (List.range 5).map (fold 5) = [0, 1, 2, -2, -1] ∧
+    (List.range 4).map (foldOld 4) = (List.range 4).map (fold 4) := by decide
+
 end AbacusVerif.Binning
